@@ -87,6 +87,10 @@ async def run_any_iter(sc, sim, res, tag):
         items = [make_awaitable(sim, log, ("item", i), sc["susp"][i % 3], values[i], sc["coro"]) for i in range(sc["n"])]
     else:
         items = list(values)
+        if sc["n"] and sc["susp"][2] == 2:
+            # plain items that are *classes* whose instances are awaitable (the class itself is not): data like any other
+            for i in range(0, sc["n"], 2):
+                items[i] = values[i] = (Aw, AwFuture)[i % 4 == 0]
     if sc["container"] == 0:
         inner = list(items)
     elif sc["container"] == 1:
@@ -243,7 +247,8 @@ def gen_apply(ch):
             "names": [ch.draw(8) for _ in range(3)],
             # the function: def | async def | partial(async def) | object whose call returns an awaitable -
             # apply returns *the function's result*, which for the last three is an awaitable left to the caller
-            "func": ch.weighted([3, 1, 1, 1])}
+            # 4: a C-implemented callable without an introspectable signature (max)
+            "func": ch.weighted([6, 2, 2, 2, 1])}
 
 
 async def run_apply(sc, sim, res, tag):
@@ -286,12 +291,18 @@ async def run_apply(sc, sim, res, tag):
         def __call__(self, /, *args, **kwargs):
             return Aw(sim, log, ("func_result",), 1, lambda n: func(*args, **kwargs))
 
-    target = (func, afunc, functools.partial(afunc2, None), FuncObj())[sc.get("func", 0)]
+    if sc.get("func", 0) == 4 and not sc["fails"] and sc["npos"] >= 2 and not kws and not res.get("shared"):
+        aw = L.apply(max, *pos)
+        res["type_ok"] = hasattr(aw, "__await__")
+        res["got"] = ("ok", await aw)
+        res["expected"] = ("ok", max(pos_vals))
+        return
+    target = (func, afunc, functools.partial(afunc2, None), FuncObj(), func)[sc.get("func", 0)]
     aw = L.apply(target, *pos, **kws)
     res["type_ok"] = hasattr(aw, "__await__")
     try:
         value = await aw
-        if sc.get("func", 0):
+        if sc.get("func", 0) in (1, 2, 3):
             # the function's own result: an awaitable that nobody has entered yet
             if not hasattr(value, "__await__") or ("func_body",) in log or ("enter", ("func_result",)) in log:
                 res["got"] = ("function_result_was_awaited_by_apply", repr(value))
